@@ -63,6 +63,8 @@ TRUSTED = [
     "modelled, not verified: Python int(str, 0) parsing, str(int) printing, hash(pid) for small ints "
     "(hash(-1) == hash(-2) is modelled), dict semantics of the queues",
     "not modelled: EventLimiter / --event_filter inside normalize_phase1 (C17), warnings, frequency_minmax logging",
+    "cases files write integers below 2^62 as primitive-integer literals decoded by Uint63.to_Z under vm_compute "
+    "(elaborating binary literals dominated the run time); this affects the tie only, no theorem depends on Uint63",
     "end-to-end tie identifies exported slices by args.uid and relies on ingestion keeping args and on no later "
     "stage rewriting TS1..TS5/OVC (if one does, the tie reports it)",
 ]
@@ -82,7 +84,6 @@ PH_AB = {"DmaI": (0, 1), "Cmpt Prep": (1, 2), "Cmpt Exec": (2, 3), "DmaO": (3, 4
 GRID_F = [256.0, 512.0, 1024.0, 2048.0]
 OFF_F = [560.0, 1000.0, 1100.5, 833.3, 1234.567]
 MARGIN = 1 << 16
-COQ_IMPORTS = "From AiuModel Require Import Overflow."
 COQ_TY = "(Q * bool * list ev * list bool)"
 
 
@@ -172,13 +173,16 @@ def _quiet():
     return contextlib.redirect_stdout(io.StringIO()), contextlib.redirect_stderr(io.StringIO())
 
 
+DIRECT_JOBS = [f"/c05/direct_job_{j}.json" for j in range(3)]
+
+
 def drive_direct(case):
     """normalize_phase1 over all events, then normalize_phase2 over its outputs, one shared context."""
     from aiu_trace_analyzer.pipeline.normalize import NormalizationContext, normalize_phase1, normalize_phase2
     from aiu_trace_analyzer.types import GlobalIngestData
     import aiu_trace_analyzer.logger as aiulog
     aiulog.setloglevel(0)
-    jobs = [GlobalIngestData.add_job_info(f"/c05/direct_job_{j}.json") for j in range(3)]
+    jobs = [GlobalIngestData.add_job_info(p) for p in DIRECT_JOBS]
     o, e_ = _quiet()
     with o, e_:
         ctx = None
@@ -217,7 +221,8 @@ def write_files(case, d):
     groups = {}
     for e in case["events"]:
         groups.setdefault((e["pid"], e.get("job", 0)), []).append(e)
-    paths, ids = [], set()
+    # ... and distinct from the ids of the direct drive's pseudo jobs, which live in the same process-wide job map
+    paths, ids = [], {zlib.crc32(p.encode()) % 10000 for p in DIRECT_JOBS}
     for (pid, job), evs in sorted(groups.items()):
         salt = 0
         while True:
@@ -281,11 +286,64 @@ def drive(case, workdir=None):
 
 
 # ---------------------------------------------------------------- Coq encoding
+# Elaborating tens of thousands of 33..53-bit binary literals dominates the cost of a cases file (measured: 30 s per
+# 300 traces); numbers below 2^62 are therefore written as primitive-integer literals and converted with
+# Uint63.to_Z inside vm_compute, and event names go through a table of definitions (NameTable).
+COQ_IMPORTS = "From Coq Require Import Uint63.\nFrom AiuModel Require Import Overflow.\nDefinition c5z := Uint63.to_Z."
+
+
+def zt(n):
+    n = int(n)
+    if 0 <= n < (1 << 62):
+        return f"(c5z {n}%uint63)"
+    if -(1 << 62) < n < 0:
+        return f"(Z.opp (c5z {-n}%uint63))"
+    return enc.Z(n)
+
+
+def qt(x):
+    fr = enc.frac(x)
+    return f"(Qmake {zt(fr.numerator)} (Z.to_pos {zt(fr.denominator)}))"
+
+
+def vt(x):
+    """Python value -> Base.val term (as enc.V, integers through zt)"""
+    if isinstance(x, enc.Err):
+        return f"(VE {enc.S(x.tag)})"
+    if x is None:
+        return "VN"
+    if isinstance(x, bool):
+        return f"(VB {enc.B(x)})"
+    if isinstance(x, int):
+        return f"(VZ {zt(x)})"
+    if isinstance(x, str):
+        return f"(VS {enc.S(x)})"
+    if isinstance(x, (list, tuple)):
+        return f"(VL {enc.L([vt(i) for i in x])})"
+    return enc.V(x)
+
+
+class NameTable:
+    def __init__(self):
+        self.ids = {}
+
+    def ref(self, name):
+        if name not in self.ids:
+            self.ids[name] = f"c5n{len(self.ids)}"
+        return self.ids[name]
+
+    def prelude(self):
+        return "\n".join(f"Definition {v} := {enc.S(k)}." for k, v in self.ids.items())
+
+
+NAMETAB = NameTable()
+
+
 def coq_tsv(t):
     if t[0] == "s":
-        return f"TStr {enc.Z(t[1])}"
+        return f"TStr {zt(t[1])}"
     if t[0] == "i":
-        return f"TInt {enc.Z(int(t[1]))}"
+        return f"TInt {zt(int(t[1]))}"
     if t[0] == "b":
         return "TBad"
     return "TMissing"
@@ -293,8 +351,8 @@ def coq_tsv(t):
 
 def coq_ev(e):
     tsx = list(e["tsx"]) + [["m"]] * (5 - len(e["tsx"]))
-    return (f"(mkev {enc.B(e['ph'] == 'X')} {enc.Z(e['pid'])} {enc.S(e['name'])} {enc.Q(e['ts'])} "
-            f"{enc.Q(e['dur'])} {enc.L([coq_tsv(t) for t in tsx])})")
+    return (f"(mkev {enc.B(e['ph'] == 'X')} {zt(e['pid'])} {NAMETAB.ref(e['name'])} {qt(e['ts'])} "
+            f"{qt(e['dur'])} {enc.L([coq_tsv(t) for t in tsx])})")
 
 
 def prep_dropped(case, e):
@@ -305,7 +363,7 @@ def prep_dropped(case, e):
 
 def coq_case(case, order=None):
     evs = case["events"] if order is None else [case["events"][i] for i in order]
-    return enc.P(enc.Q(case["f"]), enc.B(case.get("ic", False)), enc.L([coq_ev(e) for e in evs]),
+    return enc.P(qt(case["f"]), enc.B(case.get("ic", False)), enc.L([coq_ev(e) for e in evs]),
                  enc.L([enc.B(not prep_dropped(case, e)) for e in evs]))
 
 
@@ -319,11 +377,11 @@ def e2e_order(case):
 def observed_term(case, obs):
     """implementation outcome -> val term, aligned with the model's event order"""
     if isinstance(obs, enc.Err):
-        return enc.V(obs)
+        return vt(obs)
     if case.get("kind") == "e2e":
         order = e2e_order(case)
-        return enc.V([obs[i] for i in order if not (prep_dropped(case, case["events"][i]) and obs[i] == "missing")])
-    return enc.V(obs)
+        return vt([obs[i] for i in order if not (prep_dropped(case, case["events"][i]) and obs[i] == "missing")])
+    return vt(obs)
 
 
 def model_input(case):
@@ -413,7 +471,10 @@ def oracle(case, obs):
                 consts.setdefault(dlt, []).append((e, o))
         if len(consts) > 1:
             # majority constant is taken as the rank's; report one slice that deviates
-            major = max(consts, key=lambda k: (len(consts[k]), -abs(k)))
+            # which slices deviate?  the constant shared by most slices is taken as the rank's; on a tie the one
+            # that makes the earliest epoch of the rank epoch 0 (what a min-reference yields) - only used for blame
+            qmin = min(e["truth"][0] // W for e, _ in lst)
+            major = max(consts, key=lambda k: (len(consts[k]), k == -qmin * W, -abs(k)))
             for dlt in sorted(consts):
                 if dlt == major:
                     continue
@@ -538,9 +599,13 @@ def gen_valid(r, on_grid=True, e2e=False, max_ranks=3, max_kernels=6):
         e1, uid = gen_rank(r, pid, f, H, uid, r.randint(1, max_kernels), on_grid, jobs=jobs, e2e=e2e)
         evs += e1
     evs.sort(key=lambda e: e["ts"])
-    if not e2e and r.random() < 0.25:
-        r.shuffle(evs)
-        # keep the code's division guard satisfied: Exec slices of a rank must not repeat a host ts back to back
+    if r.random() < 0.3:
+        # out-of-order input (later epochs first): phase 1 has to move the reference epoch, and only the barrier
+        # makes phase 2 see the final one
+        if r.random() < 0.5:
+            evs.reverse()
+        else:
+            r.shuffle(evs)
     case = {"kind": "e2e" if e2e else "direct", "f": f, "ic": r.random() < 0.15, "events": evs}
     if e2e:
         case["opts"] = r.choice([[], ["--keep_prep"], ["--keep_prep", "-M"], ["-t"], ["--keep_prep", "--ignore_crit"]])
@@ -604,8 +669,9 @@ def grid_cases(two_wraps=False):
                     # first boundary exactly at counter p: counters >= p are >= 2W
                     base = 2 * W - (flat[p] if p < 15 else flat[14] + step)
                     vals = [base + x for x in flat]
-                    if q is not None:   # second boundary: jump the tail by a whole period minus a bit
-                        vals = [v + (W - 4 if i >= q else 0) for i, v in enumerate(vals)]
+                    if q is not None:   # an idle stretch of almost a whole period before counter q (inside a slice it
+                        # stays below the one-period limit: 32 + W - 40 < W), so a second boundary is crossed there
+                        vals = [v + (W - 40 if i >= q else 0) for i, v in enumerate(vals)]
                     evs = []
                     for i, kind in enumerate((kinds[a], kinds[b], kinds[c])):
                         cs = vals[5 * i:5 * i + 5]
@@ -676,13 +742,13 @@ def run(ctx):
     n_corpus = len(cases)
     grid = grid_cases(two_wraps=not ctx.quick())
     cases += grid
-    n_direct = ctx.pick(500, 20000)
+    n_direct = ctx.pick(1000, 20000)
     for _ in range(n_direct):
         cases.append(gen_valid(r, on_grid=r.random() < 0.8))
-    n_mal = ctx.pick(150, 3000)
+    n_mal = ctx.pick(300, 3000)
     for _ in range(n_mal):
         cases.append(gen_malformed(r))
-    n_e2e = ctx.pick(130, 1500)
+    n_e2e = ctx.pick(300, 2000)
     for _ in range(n_e2e):
         cases.append(gen_valid(r, on_grid=True, e2e=True, max_ranks=3, max_kernels=4))
 
@@ -715,7 +781,9 @@ def run(ctx):
             _bump(dist["e2e_opts"], " ".join(case.get("opts", [])) or "(default)")
     bad, extras, secs = coqrun.run_cases(
         "C05", COQ_IMPORTS, COQ_TY, "run_val", terms,
-        extra="Definition nt := Eval vm_compute in (count_if (fun c => has_wrap (fst c)) cases).\nPrint nt.", shard=300)
+        prelude=NAMETAB.prelude(),
+        extra="Close Scope Q_scope.\nDefinition nt := Eval vm_compute in (count_if (fun c => has_wrap (fst c)) cases)."
+              "\nPrint nt.", shard=100)
     names, nbad, nsecs = names_tie(r, ctx.pick(300, 5000))
     mism = [{"name": "correspondence Overflow.run_val vs " +
                      ("Acelyzer end to end" if cases[j].get("kind") == "e2e" else "normalize_phase1/normalize_phase2"),
